@@ -203,8 +203,11 @@ def decide(prop_id, relations, tier, seed, wd):
     known = [k for k in C.load_known() if k.get('property') == prop_id and k.get('status') == 'known']
     known_sigs = {C.sig_hash(k['signature']): k for k in known}
 
-    obl = C.check_obligations(prop_id, thorough=(tier == 'thorough'))
     broken = []          # names of theorems / relations that no longer check
+    built, build_log = C.coq_build(clean=(tier == 'thorough'))
+    if not built:
+        broken.append('the Coq development does not build: ' + build_log[-1500:])
+    obl = C.check_obligations(prop_id, thorough=(tier == 'thorough'))
     if not obl['ok']:
         broken.append('proof obligations of Props/%s.v (%d/%d discharged): %s'
                       % (prop_id, obl['discharged'], obl['obligations'], obl['log'][-1500:]))
